@@ -136,6 +136,14 @@ func (s *Search) Len() int {
 // Iterator returns an Iterator convenient to iterate over
 // the objects resulting from the search
 func (s *Search) Iterator() (it *iterator, err error) {
+	s.db.RLock()
+	defer s.db.RUnlock()
+
+	return s.iterator()
+}
+
+// iterator must be called with the lock held
+func (s *Search) iterator() (it *iterator, err error) {
 	var sch *Schema
 
 	if s.err != nil {
@@ -282,7 +290,7 @@ func (s *Search) collect() (out []Object, err error) {
 		return nil, s.err
 	}
 
-	if it, err = s.Iterator(); err != nil {
+	if it, err = s.iterator(); err != nil {
 		return
 	}
 
